@@ -6,6 +6,7 @@ pub mod c02;
 pub mod c03;
 pub mod c04;
 pub mod c05;
+pub mod c06;
 pub mod c07;
 pub mod c08;
 pub mod c09;
@@ -21,6 +22,7 @@ pub mod c19;
 pub mod c20;
 pub mod probe;
 pub mod probe2;
+pub mod probe3;
 
 pub fn run(engine: &str, ctx: &Ctx) -> Option<Report> {
     let mut rep = Report::new(engine);
@@ -30,11 +32,13 @@ pub fn run(engine: &str, ctx: &Ctx) -> Option<Report> {
         "c03" => c03::run(ctx, &mut rep),
         "c04" => c04::run(ctx, &mut rep),
         "c05" => c05::run(ctx, &mut rep),
+        "c06" => c06::run(ctx, &mut rep),
         "c07" => c07::run(ctx, &mut rep),
         "c08" => c08::run(ctx, &mut rep),
         "c09" => c09::run(ctx, &mut rep),
         "c10" => c10::run(ctx, &mut rep),
         "c11" => c11::run(ctx, &mut rep),
+        "probe3" => probe3::run(ctx, &mut rep),
         "probe2" => probe2::run(ctx, &mut rep),
         "probe" => probe::run(ctx, &mut rep),
         "c12" => c12::run(ctx, &mut rep),
